@@ -87,9 +87,13 @@ func gid() int64 {
 
 // round runs one stress round; returns false if something got stuck (the
 // process then holds blocked goroutines; the caller stops the run).
-// With burst = true the loop starts polling only after every poster has
-// returned, so the first dispatch finds the whole burst queued.
-func round(rr *rec, posters, per, nestEvery int, budget time.Duration, burst bool) bool {
+// With burst = 1 the loop starts polling only after every poster has
+// returned, so the first dispatch finds the whole burst queued. With burst = 2
+// it starts when 60% of the posts have been made: the posters keep posting
+// while the loop dispatches a long backlog (any bounded fast path in front of
+// an overflow list is then full while both sides are active).
+func round(rr *rec, posters, per, nestEvery int, budget time.Duration, burstMode int) bool {
+	burst := burstMode != 0
 	r := &scen{r: rr}
 	defer r.close()
 	ioc, err := sonic.NewIO()
@@ -105,7 +109,11 @@ func round(rr *rec, posters, per, nestEvery int, budget time.Duration, burst boo
 		loopDone = make(chan struct{})
 		rest     = make(chan [2]int, 1)
 		release  = make(chan struct{})
+		relOnce  sync.Once
+		made     int64
 	)
+	doRelease := func() { relOnce.Do(func() { close(release) }) }
+	threshold := int64(posters*per) * 6 / 10
 	mkHandler := func(p, seq, nest int) func() { return nil }
 	mkHandler = func(p, seq, nest int) func() {
 		return func() {
@@ -168,6 +176,9 @@ func round(rr *rec, posters, per, nestEvery int, budget time.Duration, burst boo
 				r.emit(Ev{Ev: "PostB", P: p, Seq: seq})
 				err := ioc.Post(mkHandler(p, seq, 0))
 				r.emit(Ev{Ev: "PostE", P: p, Seq: seq, Err: errs(err)})
+				if burstMode == 2 && atomic.AddInt64(&made, 1) == threshold {
+					doRelease()
+				}
 				if seq%7 == 0 {
 					runtime.Gosched()
 				}
@@ -183,7 +194,7 @@ func round(rr *rec, posters, per, nestEvery int, budget time.Duration, burst boo
 		r.emit(Ev{Ev: "Stuck", What: "post"})
 		ok = false
 	}
-	close(release)
+	doRelease()
 	if ok {
 		deadline := time.Now().Add(budget)
 		for atomic.LoadInt64(&ran) < atomic.LoadInt64(&expected) && time.Now().Before(deadline) {
@@ -253,10 +264,13 @@ func Run(a tr.Args) error {
 		runtime.GOMAXPROCS(2 + int((a.Seed+int64(3*k))%7))
 		// every third round is a burst: many more handlers queued than any
 		// per-dispatch bound a poller might have
-		burst := k%3 == 0
+		burst := 0
 		n := per
-		if burst {
-			n = 5 * per
+		if k%3 == 0 {
+			burst, n = 1, 5*per
+		}
+		if k%6 == 5 {
+			burst, n = 2, 10*per
 		}
 		if !round(r, ps, n, nestEvery, budget, burst) {
 			sum.Notes = fmt.Sprintf("round %d got stuck; stopped", k)
